@@ -21,6 +21,7 @@ RULE = (
     "non-trivial = key with len % 4 != 0 whose tail contains a byte >= 0x80, or a non-ASCII text key, or a history "
     "with a list change strictly inside a cycle; distinct = distinct key / distinct history."
     " Through the producer (engine PROD, observing partitioner subclasses): one partitioner instance per topic, every window of n consecutive round-robin selections over an unchanged list is a permutation of it - also across metadata reloads; hashed selections equal a fresh instance's; a hashed partitioner built for a longer/shorter list than the one passed selects like the Java client."
+    " The simulated brokers list a topic's partitions in ascending, descending or rotated order (md_order): through the producer the hashed choice must be the Java client's partition id (murmur2 mod n over the ascending ids) and round-robin fairness is judged over the topic's partition set."
 )
 ASSUMPTIONS = [
     "ref/Murmur2Ref.java is a faithful transcription of org.apache.kafka.common.utils.Utils.murmur2 (checked at "
